@@ -311,6 +311,34 @@ def foreign_events(ctx):
     for usage_, s2k_ in ((0, b'\x00'), (254, bytes([254, 7, 3, 8]) + b'12345678' + b'\x60' + bytes(range(16))), (255, bytes([255, 9, 0, 2]) + bytes(range(16)))):
         corpus.append(('secret key of algorithm id 21 (no key-material layout) usage %d' % usage_, 5, b'\x04' + struct.pack('>I', 1262304000) + b'\x15' + km21 + s2k_ + build.mpi(0x7f) + b'\x00\x7f'))
         corpus.append(('secret subkey of algorithm id 21 (no key-material layout) usage %d' % usage_, 7, b'\x04' + struct.pack('>I', 1262304000) + b'\x15' + km21 + s2k_ + build.mpi(0x7f) + b'\x00\x7f'))
+    # versions other than the ones PGPy implements, for every versioned tag (known to RFC 4880 / 2440 / later drafts, unknown here)
+    for tag_, vers in ((1, (2, 6)), (2, (2, 6)), (3, (5, 6)), (4, (6,)), (5, (2, 3, 6)), (6, (2, 3, 6)), (7, (3, 5)), (14, (3, 5)), (18, (2,))):
+        for v_ in vers:
+            corpus.append(('tag %d version %d (not implemented)' % (tag_, v_), tag_, bytes([v_]) + bytes((i * 29 + v_ + tag_) % 256 for i in range(37))))
+    # ElGamal (ids 16 and 20) key packets: structurally well-formed integers (no primality needed for the codec), public and secret,
+    # every S2K usage form incl. the legacy one (usage octet = cipher id, IV and data follow, 5.5.3)
+    elg_p = int.from_bytes(bytes((i * 13 + 5) % 251 + 1 for i in range(128)), 'big') | 1
+    elg_pub = build.mpi(elg_p) + build.mpi(5) + build.mpi(elg_p // 3)
+    elg_x = build.mpi(elg_p // 7)
+    for alg_ in (16, 20):
+        kb = b'\x04' + struct.pack('>I', 1262304000) + bytes([alg_]) + elg_pub
+        corpus.append(('foreign elgamal (%d) public subkey' % alg_, 14, kb))
+        corpus.append(('foreign elgamal (%d) secret subkey usage 0' % alg_, 7, kb + b'\x00' + elg_x + struct.pack('>H', sum(elg_x) & 0xFFFF)))
+        corpus.append(('foreign elgamal (%d) secret subkey usage 254' % alg_, 7, kb + bytes([254, 9, 3, 8]) + b'saltsalt' + b'\x60' + bytes(range(16)) + bytes((i * 3) % 256 for i in range(len(elg_x) + 20))))
+        corpus.append(('foreign elgamal (%d) secret subkey usage 255 simple' % alg_, 7, kb + bytes([255, 7, 0, 2]) + bytes(range(16)) + bytes((i * 3) % 256 for i in range(len(elg_x) + 2))))
+    for name, key in (('rsa', fk), ('dsa', dk), ('ed25519', ek), ('ecdh', rec)):
+        sm_ = key.secret_mpis() if hasattr(key, 'secret_mpis') else None
+        if sm_ is None:
+            continue
+        for cid_, bl_ in ((7, 16), (3, 8), (2, 8)):
+            corpus.append(('foreign %s secret key legacy usage (cipher id %d)' % (name, cid_), 5, key.pub_body + bytes([cid_]) + bytes(range(bl_)) + bytes((i * 5 + cid_) % 256 for i in range(len(sm_) + 2))))
+    # compressed packets of every algorithm nesting several packets of different kinds
+    import bz2 as _bz2
+    nest = build.pkt(4, b'\x03\x00\x08\x16' + bytes(range(8)) + b'\x01') + build.pkt(11, b'b\x00\x00\x00\x00\x00nested', fmt='old') + build.pkt(60, b'unknown inside')
+    corpus.append(('compressed packet (uncompressed, id 0) with three packets', 8, b'\x00' + nest))
+    corpus.append(('compressed packet (ZIP) with three packets', 8, b'\x01' + __import__('zlib').compress(nest)[2:-4]))
+    corpus.append(('compressed packet (ZLIB) with three packets', 8, b'\x02' + __import__('zlib').compress(nest)))
+    corpus.append(('compressed packet (BZ2) with three packets', 8, b'\x03' + _bz2.compress(nest)))
     corpus.append(('foreign pkesk wildcard recipient', 1, b'\x03' + bytes(8) + b'\x01' + build.mpi(0x1234567890abcdef1234567890abcdef)))
     for spec_, s2k_ in ((0, bytes([0, 8])), (1, bytes([1, 2]) + bytes(range(8))), (3, bytes([3, 10]) + bytes(range(8)) + b'\x60')):
         corpus.append(('foreign skesk s2k %d' % spec_, 3, b'\x04\x09' + s2k_))
